@@ -131,6 +131,9 @@ def run(chk, repo, tier):
     C01b.run_a8(chk, A8, repo)
     A9 = chk.rule('A9', 'reader: a branch guarded by the existence of a PK symbol uses that symbol (Sn, ALAGn, Fn, SC)', floor=4)
     C01b.run_a9(chk, A9, repo)
+    C01b.run_a8_truth(chk, A8, repo)
+    A10 = chk.rule('A10', 'record parsing: lists combined element-wise come from the same accumulation level', floor=1)
+    C01b.run_a10(chk, A10, repo)
     from rules.C04 import run_a5
     run_a5(chk, A5, ['abbreviated_record.lark', 'code_record.lark', 'data_record.lark', 'option_record.lark',
                      'simulation_record.lark'])
